@@ -4,9 +4,9 @@ import ast
 import z3
 
 from pyvc.vals import Val, NONE, I, B, R, Z, ref, fresh, cls_of, ArgPack, Cls, STRINGS, strv, TupleV, Func, Closure, Bound, Partial, PENDING, RUNNING, FINISHED
-from pyvc.verify import Unit, sym_inst, sym_val, user_calls
+from pyvc.verify import Unit, sym_inst, sym_val, user_calls, new_inst
 from pyvc.symexec import Raise, LoopSpec
-from .base import make_cfg, FIELD_TYPES, INST, OPT, RecordCall, own_future_may_only_be_cancelled
+from .base import make_cfg, FIELD_TYPES, INST, OPT, RecordCall, own_future_may_only_be_cancelled, decided
 from . import c_map, c_retry, c_poll, c_timeout, c_throttle, c_shutdown, c_future     # noqa: F401
 from .c_shutdown import _refusal_clauses, _same_kw, _gate_inv, MSG
 from .c_throttle import global_handler, TrackFuture
@@ -234,7 +234,7 @@ def _exit_loop_spec():
     def body_post(engine, st, fr, ctx, events):
         sets = [e for e in events if e.kind in ("event-set",) or (e.kind == "call" and e.meth == "set")]
         calls = [e for e in events if e.kind == "call" and e.meth != "set"]
-        alive = any(a == "evt" and b for a, b in st.decisions[-3:])
+        alive = decided(engine, st, "event.ShutdownAwareEventHandler.on_exiting", "{$call:evt_ref|evt}", True, st.decisions[-3:])
         return [("every event that is still alive is set exactly once", z3.BoolVal((len(sets) == 1) if alive else (len(sets) == 0)))]
     return LoopSpec(body_post=body_post)
 
@@ -378,8 +378,7 @@ def _post_base_shutdown(engine, st, ctx, out):
 
 
 def _setup_sync_init(engine, st):
-    oid = st.alloc("SyncExecutor")
-    st.assume(cls_of(z3.IntVal(oid)) == engine.tag("SyncExecutor"))
+    oid = engine.concrete_id(new_inst(engine, st, "SyncExecutor").t)        # fresh, private, every field UNSET
     me = Z(ref(oid), INST("SyncExecutor"))
     name = sym_val(engine, st, "any", "name")
     return [me], {"name": name}, {"me": me, "name": name, "sid": z3.IntVal(oid)}
@@ -414,8 +413,7 @@ UNITS += [
 
 def _setup_pool_init(variant):
     def setup(engine, st):
-        oid = st.alloc("CustomizableThreadPoolExecutor")
-        st.assume(cls_of(z3.IntVal(oid)) == engine.tag("CustomizableThreadPoolExecutor"))
+        oid = engine.concrete_id(new_inst(engine, st, "CustomizableThreadPoolExecutor").t)        # fresh, private, every field UNSET
         me = Z(ref(oid), INST("CustomizableThreadPoolExecutor"))
         name = sym_val(engine, st, "str", "name")
         kw = {"name": name} if variant != "unnamed" else {}
@@ -525,8 +523,7 @@ FIELD_TYPES[("ShutdownAwareEventHandler", "shutdown")] = "bool"
 
 
 def _setup_handler_init(engine, st):
-    oid = st.alloc("ShutdownAwareEventHandler")
-    st.assume(cls_of(z3.IntVal(oid)) == engine.tag("ShutdownAwareEventHandler"))
+    oid = engine.concrete_id(new_inst(engine, st, "ShutdownAwareEventHandler").t)        # fresh, private, every field UNSET
     for f_ in ("lock", "atexit_registered", "shutdown", "events"):
         from pyvc.symexec import UNSET
         st.put(f_, z3.IntVal(oid), UNSET)
@@ -622,8 +619,7 @@ def _cfg_simple_ctor():
 
 def _setup_simple_ctor(cls_name):
     def setup(engine, st):
-        oid = st.alloc(cls_name)
-        st.assume(cls_of(z3.IntVal(oid)) == engine.tag(cls_name))
+        oid = engine.concrete_id(new_inst(engine, st, cls_name).t)        # fresh, private, every field UNSET
         me = Z(ref(oid), INST(cls_name))
         d = sym_val(engine, st, "executor", "delegate")
         name = sym_val(engine, st, "any", "name")
@@ -699,7 +695,7 @@ def _post_aio(engine, st, ctx, out):
                        z3.And(z3.BoolVal(len(wraps) == 1), wraps[0].args[0] == ev.ret if wraps else False), ["C01"]))
             gl = [e for e in st.trace if e.kind == "get_event_loop"]
             lp = wraps[0].kwargs.get("loop") if wraps else None
-            truthy = z3.BoolVal(not any(a == "not loop" and b for a, b in st.decisions))      # the code's own (single) truth test of `loop`
+            truthy = z3.BoolVal(not decided(engine, st, "asyncio.AsyncioExecutor.submit_with_loop", "not {$param#1|loop}", True))      # the code's own (single) truth test of `loop`
             cl.append(("the wrapper lives on the loop the caller named, or on the current event loop when none was named", "PC",
                        z3.If(truthy, z3.And(z3.BoolVal(not gl), lp == ctx["loop"].t if lp is not None else False),
                              z3.And(z3.BoolVal(len(gl) == 1), lp == gl[0].ret if (lp is not None and gl) else False)), ["C01"]))
